@@ -4,9 +4,13 @@ import runlib as R
 ID = 'C20'
 COQ_TARGETS = ['Props/Properties_C20.vo']
 PROPS_FILES = ['Props/Properties_C20.v']
-THEOREMS = ['C20_sortmx', 'C20_sortmx_stable', 'C20_spec_checker_sound', 'C20_tryconn_once', 'C20_not_me', 'C20_targets', 'C20_route_order', 'C20_route_empty_relay', 'C20_dnsmx', 'C20_getmxlist', 'C20_main', 'C20_ports']
+THEOREMS = ['C20_sortmx', 'C20_sortmx_stable', 'C20_spec_checker_sound', 'C20_spec_checker_complete', 'C20_spec_checker_accepts_sortmx', 'C20_tryconn_once', 'C20_not_me', 'C20_targets', 'C20_route_order', 'C20_route_empty_relay', 'C20_dnsmx', 'C20_getmxlist', 'C20_main', 'C20_connect_compose', 'C20_connect_once', 'C20_connect_noent_after_all',
+            'C20_connect_total', 'C20_temp_failure_refuted', 'C20_temp_failure_partial', 'C20_connect_exit_classes', 'C20_ports']
 ENGINES = [dict(name='mx', c_sources=['mx_h.c'], extract='Extract/Extract_mx.v', driver='mx_driver.ml',
-                accepts=lambda c: c.split(' ')[0] in ('01', '02', '03', '04', '05', '06', '07'))]
+                accepts=lambda c: c.split(' ')[0] in ('01', '02', '03', '04', '05', '06', '07')),
+           # connect_mx() over the real tryconn(): the harness of C18/C04 (real main, conn_mx.c, conn.c, greeting.c, starttlsr.c, netio.c), op ca
+           dict(name='mxconn', c_sources=['tlssw_h.c'], extract='Extract/Extract_mxconn.v', driver='mxconn_driver.ml',
+                glue=('glue.ml', 'glue_z.ml'), accepts=lambda c: c.startswith('ca '), shrink_from=5)]
 RULE = ('cases = (01) MX lists of 1..9 entries, preferences drawn from a small set with many ties plus the special values '
         '65535..65539 and 2^32-1, 1..4 addresses per entry from a small pool of IPv6 / v4-mapped / nearly-v4-mapped addresses, '
         'a few entries without addresses; (02) the same lists fresh or with USED/CURRENT marks and cur_s 0..3, 0..12 tryconn calls, '
@@ -47,7 +51,9 @@ ASSUMPTIONS = [
     'smtproutes.d files are modelled (clientcert, clientkey, outgoingip, outgoingip6 are outside); ask_dnsaaaa of the relay is an oracle table',
     'the resolver (libowfat dnsmx/dnsip6 behind include/libowfatconn.h) is an oracle: MX records with 16-bit preferences in wire format, per name either addresses or '
     'a temporary / permanent / out-of-memory failure; IPv4 addresses arrive v4-mapped from dnsip6',
-    'the target is not an address literal ("[...]" branch of getmxlist is not modelled); connect_mx() (greeting, EHLO, STARTTLS, DANE) is represented only by the number of tryconn calls',
+    'the target is not an address literal ("[...]" branch of getmxlist is not modelled)',
+    'connect phase (engine mxconn): servers are scripted byte streams with close or silence at the end, OpenSSL and dnstlsa are oracles (as in C18/C04), '
+    'every connection that comes about has a scripted server; the partner name is reduced to "the entry has a name"',
 ]
 
 # ---------------------------------------------------------------- address pool
@@ -248,7 +254,27 @@ def main_case(rng):
 def total_addrs(es):
     return sum((len(e) // 2 - 5) // 16 for e in es)
 
+def mxconn_case(rng):
+    import C04
+    nent = rng.choice([1, 1, 2, 2, 3, 4])
+    spec = b''; succ = 0
+    for i in range(nent):
+        cnt = rng.choice([1, 1, 2, 3])
+        oc = []
+        for j in range(cnt):
+            o = 0 if rng.random() < 0.6 and succ < 8 else rng.choice([111, 110, 113, 101])
+            succ += (o == 0); oc.append(o)
+        spec += bytes([1 if rng.random() < 0.5 else 0, cnt]) + bytes(oc)
+    nserv = succ + (1 if rng.random() < 0.1 and succ < 8 else 0)
+    servers = []
+    for i in range(nserv):
+        servers += C04.gen_conn(rng, i == nserv - 1)
+    ht = bytes([3, rng.choice([0, 1, 2])]) if rng.random() < 0.08 else b''
+    return ' '.join(['ca', '%02x' % (1 if rng.random() < 0.08 else 0), '%02x' % nserv, R.hx(spec), R.hx(ht)] + servers)
+
 def gen_cases(engine, rng, tier):
+    if engine == 'mxconn':
+        return [mxconn_case(rng) for _ in range(1200 if tier == 'quick' else 40000)]
     n = 1500 if tier == 'quick' else 30000
     out = []
     for i in range(n):
@@ -283,8 +309,32 @@ def gen_cases(engine, rng, tier):
 def _entries(fields):
     return [bytes.fromhex(f) for f in fields if f != '-']
 
+def _ca_obs(case, c_out):
+    f = case.split(' ')
+    spec = bytes.fromhex(f[3]) if f[3] != '-' else b''
+    total, o = 0, 0
+    while o + 1 < len(spec):
+        total += spec[o + 1]; o += 2 + spec[o + 1]
+    toks = c_out.split(' ')
+    used = any(t.startswith('M') for t in toks)
+    att = [t for t in toks if t.startswith('ATT')]
+    natt = 0 if not att or att[0] == 'ATT-' else (len(att[0]) - 3) // 2
+    return total, natt, used
+
+def classify(case, c_out):
+    # F-C20-5: the run ended without using a connection although candidates were left (spec: early_exit_b)
+    if case.startswith('ca ') and c_out.startswith('B '):
+        total, natt, used = _ca_obs(case, c_out)
+        # ... by an exit inside connect_mx() / the pinned-host refusal, not by "Z4.4.2 can't connect to any server"
+        if not used and natt < total and ' S5a342e342e32' not in c_out:
+            return 'gives-up-with-candidates-left'
+    return None
+
 def nontrivial(case, c_out):
     f = case.split(' ')
+    if f[0] == 'ca':
+        total, natt, used = _ca_obs(case, c_out)
+        return natt >= 2
     if f[0] == '01':
         pr = [e[:4] for e in _entries(f[1:])]
         return c_out.startswith('OK') and len(pr) != len(set(pr))
@@ -305,6 +355,11 @@ def distribution(results):
     d = {}
     for r in results:
         op = r['case'][:2]
+        if op == 'ca':
+            total, natt, used = _ca_obs(r['case'], r['c'])
+            k = 'ca:' + ('used' if used else 'all-tried' if natt == total else 'gave-up-early')
+            d[k] = d.get(k, 0) + 1
+            continue
         k = op + ':' + ('crash' if r['c'] in ('CRASH', 'TIMEOUT') else 'allme' if r['c'].endswith('ALLME') else 'die' if r['c'].startswith('DIE') else 'rc' if r['c'].startswith('RC') else 'fatal' if r['c'] == 'FATAL' else 'pre' if r['spec'] == 'pre' else 'noroute' if r['c'].endswith(' NONE') else 'run')
         d[k] = d.get(k, 0) + 1
     return d
@@ -321,7 +376,9 @@ LEVEL_TEXT = ('Machine-checked Coq theorems over executable models of smtproute,
               'list once each in order and no local address is attempted on port 25. The models are tied to the C by a differential run under ASan/UBSan.')
 LEVEL_NOTE = ('Trusted: Coq kernel, translator regexes, extraction (ExtrOcamlBasic), harness, generator quality of the correspondence run, stability of glibc qsort, '
               'the file-system / lloadfilefd / libc abstractions of the route model. '
-              'Not covered by a theorem: connect_mx() (greeting / EHLO / TLS handling; a failed greeting is just another tryconn call), the statement order of main() '
+              'The connect phase is the C04/C18 model of connect_mx() composed with the tryconn model (C20_connect_*): candidates once each in order, every failure but a '
+              'silent server, dup2, a local TLS problem and the pinned-host refusal moves on (those four are the known finding F-C20-5), Z4.4.2 only after all. '
+              'Not covered by a theorem: the statement order of main() '
               '(checked by the translator and repeated in the harness, main() cannot be included), the "[address]" target form, the smtproutes.d keys other than relay/port, '
               'a whole-program Qremote run.')
 TECHNIQUE = ('Coq proofs by induction over the lists (insertion-sort invariant with a numeric key, representation invariant of the USED/CURRENT marks, '
